@@ -508,7 +508,8 @@ impl PacketTrait for PublicKeyEncryptedSessionKey {
 }
 
 fn write_len_other(data_len: usize) -> usize {
-    1 + 1 + data_len
+    // version octet + opaque rest
+    1 + data_len
 }
 
 fn write_len_v3(id: &KeyId, values: &PkeskBytes) -> usize {
